@@ -76,6 +76,10 @@ def cases(tier):
                        ([4, 1, 3], 4), ([5], None), ([2, 5], None)]:
         cs.append(('mux.chop', dict(segs=segs, part=part)))
     cs.append(('mux.wire_struct', dict()))
+    # barrel_shifter: widths that are not powers of two with shift amounts reaching past the width
+    for w in ((3, 5, 6, 7) if tier == 'quick' else (3, 5, 6, 7, 9, 10, 12)):
+        for ws in (2, 3, 4):
+            cs.append(('ops.barrel', dict(w=w, ws=ws)))
     return cs
 
 
